@@ -205,7 +205,7 @@ class Engine:
         self.steps = 0
         outs = self._explore(fn, fid, [(bb, s)], 0, first_free=True)
         for o in outs:
-            if o.kind == 'cut' and isinstance(o.site, tuple) and len(o.site) == 2 and o.site[1] in stops:
+            if o.kind in ('cut', 'loop-closed') and isinstance(o.site, tuple) and len(o.site) == 2 and o.site[1] in stops:
                 o.kind = 'stop'
                 o.st.cut = False
                 for b in stops:
